@@ -148,6 +148,7 @@ unsafe impl lock_api::RawMutexTimed for RawMutex {
 
     #[inline]
     fn try_lock_until(&self, timeout: Instant) -> bool {
+        if let Some(ok) = vsched::try_acquire(self as *const _ as usize, vsched::Mode::Excl) { if !ok { return false; } }
         let result = if self
             .state
             .compare_exchange_weak(0, LOCKED_BIT, Ordering::Acquire, Ordering::Relaxed)
@@ -165,6 +166,7 @@ unsafe impl lock_api::RawMutexTimed for RawMutex {
 
     #[inline]
     fn try_lock_for(&self, timeout: Duration) -> bool {
+        if let Some(ok) = vsched::try_acquire(self as *const _ as usize, vsched::Mode::Excl) { if !ok { return false; } }
         let result = if self
             .state
             .compare_exchange_weak(0, LOCKED_BIT, Ordering::Acquire, Ordering::Relaxed)
